@@ -242,6 +242,13 @@ func runC01(seed int64, n int, tier string, outDir string) (*Report, error) {
 		rep.Count("directed")
 		idx++
 	}
+	// leaf structs (Source, Endpoints, PublicKey) in every shape and IRIs of the wide grammar: the values the round-trip
+	// theorem was widened to (c01rt.go; Props/C01.v C01_leaf_struct_example)
+	for _, it := range c01LeafDirected() {
+		roundtrip(it, "directed leaf "+structName(it), idx)
+		rep.Count("directed-leaf")
+		idx++
+	}
 	for i := 0; i < n; i++ {
 		it := g.Struct(structTypes[i%len(structTypes)], c01Opts(g))
 		roundtrip(it, "random", idx)
